@@ -115,7 +115,7 @@ def _tlc_universe(args):
                         coverage=False, allow_violation=True, env={"WANT_OUT": wantf + ".unused"})
             out["req_conf"].append((d, dict(fl), r))
         fl["Fixed" + d] = True
-    if ideal_too and not all(flags.values()):
+    if ideal_too:
         path2, consts2 = _write_mc(work, uni, {k: True for k in flags}, "ideal")
         out["req_ideal"] = tlc.run(path2, cfg_text=tlc.cfg(consts2, invariants=["TypeOK", "Requirements"]), workdir=work, workers=workers,
                                    coverage=False, allow_violation=False, env={"WANT_OUT": wantf + ".unused"})
@@ -411,8 +411,9 @@ def run(ctx):
                         "TLC; md5 ids computed by the harness and checked against Job.id"]
     ctx.cov["rule"] = ("case = one edge (state (ws, view), action with arguments) of the complete reachable state graph of a universe; distinct = "
                        "distinct (universe, pre-state, action) actually executed on real signac; every edge is executed at least once on a walk from "
-                       "the initial state; universes: homogeneous (spaces, dots, unicode) x 5 path specs, heterogeneous, nested incl. scalar-vs-"
-                       "mapping, colliding/separator values x 2 listing orders, key named 'job'")
+                       "the initial state; universes (%d jobs each): homogeneous (spaces, dots, unicode) x %s, heterogeneous, nested incl. scalar-vs-"
+                       "mapping, colliding/separator values x 2 listing orders, key named 'job'; path specs: None, False, 'a/{a}/{{auto}}', "
+                       "'a_{a}/{{auto:_}}', 'all'" % (4 if ctx.quick else 5, "3 path specs" if ctx.quick else "5 path specs"))
     flags = _probe(ctx.work)
     ctx.cov["deviation_flags_probed"] = flags
     unis = universes(ctx.quick)
